@@ -215,7 +215,12 @@ static void run_pool(Rng& g, long nops, std::size_t node_size, std::size_t block
         long lk0 = Handlers::leak();
         auto a0 = Handlers::leak_amounts().size();
         older->~Pool();
-        emit("pool destroy_moved_from", lk_result(lk0, a0), "-");
+        {
+            std::string lr_mf = lk_result(lk0, a0);
+            if (lr_mf != "leaks 0")
+                O->fail("C15 the moved-from object reported a leak when it was destroyed (`" + lr_mf + "`): moving an allocator moves the count with it");
+            emit("pool destroy_moved_from", lr_mf, "-");
+        }
         older = nullptr;
         live.swap(stash);
         grp_pool = grp_older;
@@ -726,7 +731,12 @@ static void run_pool(Rng& g, long nops, std::size_t node_size, std::size_t block
             long lk0 = Handlers::leak();
             auto a0 = Handlers::leak_amounts().size();
             pool->~Pool();
-            emit("pool destroy_moved_from", lk_result(lk0, a0), "-");
+            {
+            std::string lr_mf = lk_result(lk0, a0);
+            if (lr_mf != "leaks 0")
+                O->fail("C15 the moved-from object reported a leak when it was destroyed (`" + lr_mf + "`): moving an allocator moves the count with it");
+            emit("pool destroy_moved_from", lr_mf, "-");
+        }
             pool = np;
             ++n_moves;
             O->verify_all("after move");
@@ -963,7 +973,12 @@ static void run_coll(Rng& g, long nops, std::size_t max_node, std::size_t block_
         long lk0 = Handlers::leak();
         auto a0 = Handlers::leak_amounts().size();
         older->~Coll();
-        emit("coll destroy_moved_from", lk_result(lk0, a0), "-");
+        {
+            std::string lr_mf = lk_result(lk0, a0);
+            if (lr_mf != "leaks 0")
+                O->fail("C15 the moved-from object reported a leak when it was destroyed (`" + lr_mf + "`): moving an allocator moves the count with it");
+            emit("coll destroy_moved_from", lr_mf, "-");
+        }
         older = nullptr;
         live.swap(stash);
         ++n_moves;
@@ -1257,7 +1272,12 @@ static void run_coll(Rng& g, long nops, std::size_t max_node, std::size_t block_
             long lk0 = Handlers::leak();
             auto a0 = Handlers::leak_amounts().size();
             c->~Coll();
-            emit("coll destroy_moved_from", lk_result(lk0, a0), "-");
+            {
+            std::string lr_mf = lk_result(lk0, a0);
+            if (lr_mf != "leaks 0")
+                O->fail("C15 the moved-from object reported a leak when it was destroyed (`" + lr_mf + "`): moving an allocator moves the count with it");
+            emit("coll destroy_moved_from", lr_mf, "-");
+        }
             c = nc;
             ++n_moves;
             O->verify_all("after move");
